@@ -807,11 +807,12 @@ def quic_connection_probe(ctx, scale=1, fixed=None):
     o = ctx.oracle.setdefault("rfc-quic-connection", {"runs": 0, "violations": 0})
     todo = fixed if fixed is not None else [
         (ctx.rng.getrandbits(48), ["shuffled", "default", "suite-first"][i % 3], list(gen_quic.SUITES)[i % 4])
-        for i in range(ctx.n(16, 300) * scale)]
-    for seed, order, suite in todo:
+        for i in range(ctx.n(18, 300) * scale)]
+    for idx, (seed, order, suite) in enumerate(todo):
         rng = random.Random(seed)
-        feats = {"retry": False, "zero_rtt": False, "key_updates": 0, "new_cid": False, "prefix_cid": False,
-                 "offer_order": order, "suite": suite}
+        # every third connection goes through a Retry: the Initial keys must then be those of the NEW destination CID
+        feats = {"retry": seed % 3 == 0, "zero_rtt": False, "key_updates": 0, "new_cid": False, "prefix_cid": False,
+                 "same_cid": False, "jumbo": False, "reorder": False, "offer_order": order, "suite": suite}
         c, f = gen_quic.random_connection(rng, 0, features=feats)
         r = tool.run(wire.pcapng(c.items), "\n".join(c.keylog_lines()) + "\n")
         o["runs"] += 1
@@ -823,7 +824,8 @@ def quic_connection_probe(ctx, scale=1, fixed=None):
             o["violations"] += 1
             continue
         sess = tmain.quic_sessions[0]
-        want = {"Handshake": (c.k["shs"], c.k["chs"]), "Application": (c.k["sap"], c.k["cap"])}
+        want = {"Initial": (c.si, c.ci), "Handshake": (c.k["shs"], c.k["chs"]), "Application": (c.k["sap"], c.k["cap"])}
+        ctx.hist("quic_conn.retry", f["retry"])
         bad = []
         for lvl, (ks, kc) in want.items():
             d = sess.decryptors.get(lvl)
@@ -833,7 +835,8 @@ def quic_connection_probe(ctx, scale=1, fixed=None):
             if got != exp:
                 bad.append(f"{lvl}: installed {[x.hex() if isinstance(x, (bytes, bytearray)) else x for x in got]} "
                            f"RFC {[x.hex() for x in exp]}")
-        for name, k in (("server_handshake_hp", c.k["shs"]), ("client_handshake_hp", c.k["chs"]),
+        for name, k in (("server_initial_hp", c.si), ("client_initial_hp", c.ci),
+                        ("server_handshake_hp", c.k["shs"]), ("client_handshake_hp", c.k["chs"]),
                         ("server_application_hp", c.k["sap"]), ("client_application_hp", c.k["cap"])):
             if sess.keys.get(name) != k.hp:
                 bad.append(f"{name}: installed {sess.keys.get(name)!r} RFC {k.hp.hex()}")
